@@ -68,6 +68,7 @@ type hostOp struct {
 	forceKnown bool // the peerstore is told right before the call that the remote supports pids[0]
 	noDial     bool
 	finish     string // how the harness finishes a stream it got: close | reset
+	raw        string // "": a NewStream through the host; closeWrite | close: a bare swarm stream ended before negotiating
 }
 
 func (o hostOp) String() string {
@@ -75,7 +76,7 @@ func (o hostOp) String() string {
 	for _, p := range o.pids {
 		ps = append(ps, string(p))
 	}
-	return fmt.Sprintf("@%d[%s ctx=%d cancel=%v forceKnown=%v noDial=%v %s]", o.at, strings.Join(ps, ","), o.timeout, o.byCancel, o.forceKnown, o.noDial, o.finish)
+	return fmt.Sprintf("@%d[%s ctx=%d cancel=%v forceKnown=%v noDial=%v %s raw=%s]", o.at, strings.Join(ps, ","), o.timeout, o.byCancel, o.forceKnown, o.noDial, o.finish, o.raw)
 }
 
 type hostScenario struct {
@@ -156,6 +157,9 @@ func drawHostScenario(rt *rapid.T) *hostScenario {
 		o.forceKnown = rapid.IntRange(0, 3).Draw(rt, "forceKnown") == 0
 		o.noDial = rapid.IntRange(0, 7).Draw(rt, "noDial") == 0
 		o.finish = rapid.SampledFrom([]string{"close", "reset"}).Draw(rt, "finish")
+		// raw: a muxed stream opened on the swarm and ended before a single byte of protocol
+		// negotiation is sent (closeWrite: half-closed first, closed a moment later; close: closed at once)
+		o.raw = rapid.SampledFrom([]string{"", "", "", "", "closeWrite", "close"}).Draw(rt, "raw")
 		sc.ops = append(sc.ops, o)
 	}
 	sc.serverResetEvery = rapid.SampledFrom([]int{0, 0, 0, 1, 2}).Draw(rt, "serverResetEvery")
@@ -429,6 +433,19 @@ func runHostScenario(rt *rapid.T, sc *hostScenario, obs *hostObs) {
 		}
 		if ref != nil {
 			armOnce.Do(func() { ref.off.Store(false) })
+		}
+		if op.raw != "" {
+			rs, err := a.sw.NewStream(ctx, b.id.ID)
+			obs.label("raw-stream-ended-before-negotiation:" + op.raw + "/" + state)
+			if err != nil {
+				return
+			}
+			if op.raw == "closeWrite" {
+				rs.CloseWrite()
+				time.Sleep(20 * time.Millisecond)
+			}
+			rs.Close()
+			return
 		}
 		s, err := a.h.NewStream(ctx, b.id.ID, op.pids...)
 		obs.mu.Lock()
